@@ -1,5 +1,5 @@
 """C11 — attack geometry tables."""
-from sa.sym import Engine, show, show_cond, subterms, C, is_const, PathLimit
+from sa.sym import Engine, show, show_cond, subterms, C, is_const, PathLimit, field
 from sa.evalterm import ev, Unevaluable, geom, KNIGHT, KING, ROOK_DIRS, BISHOP_DIRS, ray_attacks, relevant_mask, subsets
 from .common import *
 from .tables import is_true, is_false
@@ -16,10 +16,12 @@ EXPLANATION = (
     "rook constants with the rook table and the bishop constants with the bishop table, tables are filled from the same "
     "constants and deltas; (R6) the constants of THIS build are validated exhaustively: for all 64 squares and all "
     "102,400 + 5,248 relevant blocker subsets the index is in range, masks equal the relevant-occupancy masks and two "
-    "subsets share a slot only if a reference ray walk gives them the same attack set. The subset-enumeration "
-    "arithmetic of the fill loops is argued, not decided; other random draws are covered only through R2-R4.")
+    "subsets share a slot only if a reference ray walk gives them the same attack set; (R7) the fill loops of the engine "
+    "(make_table) and of the generator's collision test (try_make_table) run their body once for every subset of the "
+    "mask: loop-carried blocker set, initial value, update term and continue/stop conditions are read off the MIR and the "
+    "recurrence is evaluated for all 128 masks of this build (2 x 107,648 steps). Other random draws are covered only "
+    "through R2-R4 and R7.")
 ASSUMPTIONS = [
-    "the table fill loop (carry-rippler) enumerates every subset of the mask",
     "rustc const evaluation of the generated constants and the chessfacts extractor are faithful",
 ]
 
@@ -368,6 +370,231 @@ def r6_constants(ctx):
     ctx.extra['exhaustive_cases'] = total
 
 
+def _contains(t, sub):
+    return any(x == sub for x in subterms(t))
+
+
+def _popcount_ev(t, env):
+    """ev() extended with count_ones (Bitboard::popcnt)"""
+    if t[0] == 'call' and (t[1].endswith('count_ones') or t[1].endswith('::popcnt')) and len(t[2]) == 1:
+        return bin(_popcount_ev(t[2][0], env)).count('1')
+    if t in env:
+        return env[t]
+    if t[0] == 'bin':
+        return ev(('bin', t[1], C(_popcount_ev(t[2], env)), C(_popcount_ev(t[3], env))), {})
+    if t[0] == 'cast':
+        return _popcount_ev(t[1], env)
+    if t[0] in ('ref', 'der'):
+        return _popcount_ev(t[1], env)
+    return ev(t, env)
+
+
+def subset_walk(ctx, rule, name, opaque, idx_fn, val_fn, masks, what):
+    """Decide that the fill loop of `name` performs one lookup-table write for EVERY subset of the mask.
+
+    The loop is read off the MIR: loop-carried blocker set b (the argument of the index function), its initial value, the update
+    term b' = F(b, mask) on the continuing paths and the conditions under which the loop continues / ends.  The recurrence is then
+    evaluated for every mask of this build: the set of values of b at which the body runs must be exactly the power set of the mask."""
+    facts = ctx.facts
+    try:
+        outs = Engine(facts, opaque=opaque, max_paths=2000).run(name)
+    except PathLimit:
+        ctx.ob(rule, name, what + ': fill loop analysable', False, found='path limit')
+        return
+    ctx.touch(name)
+    mi = [e for o in outs for e in o.events if e[0] == 'call' and e[1] == idx_fn]
+    if not mi:
+        ctx.anchor_missing(rule, name + ' -> ' + idx_fn)
+        return
+    bl = mi[0][2][1]
+    while bl[0] in ('ref', 'der'):
+        bl = bl[1]
+    if bl[0] != 'lv':
+        ctx.ob(rule, name, what + ': the index is computed from the loop-carried blocker set', False, found=show(bl))
+        return
+    H, l = bl[1], bl[2]
+    before = None
+    for o in outs:
+        for e in o.events:
+            if e[0] == 'loop_head' and e[2] == H:
+                before = e[3]
+    try:
+        init = ev(before.get(l), {}) if before and l in before else None
+    except Unevaluable:
+        init = None
+    ctx.ob(rule, name, what + ': enumeration starts from the empty blocker set', init == 0, found=show(before.get(l)) if before and l in before else None, expected='Bitboard::EMPTY')
+    through = [o for o in outs if any(e[0] == 'loop_head' and e[2] == H for e in o.events)]
+    # every iteration computes value and index from the same b and stores the value in that slot
+    body_ok = True
+    for o in through:
+        pos = max(i for i, e in enumerate(o.events) if e[0] == 'loop_head' and e[2] == H)
+        evs = o.events[pos:]
+        idx = [e for e in evs if e[0] == 'call' and e[1] == idx_fn]
+        val = [e for e in evs if e[0] == 'call' and e[1] == val_fn]
+        ended_before_body = not idx and not val and not any(e[0] == 'write' for e in evs)
+        if ended_before_body:
+            continue
+        body_ok = body_ok and len(idx) == 1 and len(val) == 1 and _contains(idx[0][2][1], bl) and any(x == bl or _contains(x, bl) for x in val[0][2])
+    ctx.ob(rule, name, what + ': each iteration computes the attack set and the slot from the same blocker set', body_ok)
+    cont = [o for o in through if o.kind == 'backedge' and o.where and o.where[1] == H]
+    stop = [o for o in through if not (o.kind == 'backedge' and o.where and o.where[1] == H) and o.kind != 'abort'
+            and not (o.kind == 'return' and is_err_result(o.value))]
+    if not cont or not stop:
+        ctx.ob(rule, name, what + ': fill loop has a continuing and a terminating path', False, found={'continuing': len(cont), 'terminating': len(stop)})
+        return
+    # update term
+    Fs = set()
+    for o in cont:
+        nv = o.locals.get(l)
+        f = field(nv, '0') if nv is not None else None
+        Fs.add(f)
+    if len(Fs) != 1 or None in Fs:
+        ctx.ob(rule, name, what + ': one update term for the blocker set', False, found=[show(f) for f in Fs if f])
+        return
+    F = Fs.pop()
+    b0 = ('fld', bl, '0')
+    # the mask leaf: maximal sub-terms of F without b that are not constants
+    leaves = set()
+
+    def walk(t):
+        if t == b0 or t == bl:
+            return
+        if not _contains(t, bl):
+            if t[0] != 'c':
+                leaves.add(t)
+            return
+        if t[0] in ('bin',):
+            walk(t[2]); walk(t[3])
+        elif t[0] == 'un':
+            walk(t[2])
+        elif t[0] == 'cast':
+            walk(t[1])
+        else:
+            leaves.add(('?', t))
+    walk(F)
+    entry = mi[0][2][0]
+    while entry[0] in ('ref', 'der'):
+        entry = entry[1]
+    mask_ok = len(leaves) == 1 and all(x[0] == 'fld' for x in leaves) and all(_contains(x, entry) and 'mask' in show(x) for x in leaves)
+    ctx.ob(rule, name, what + ': the update walks the mask of the entry that is indexed', mask_ok, found=[show(x) for x in leaves], expected='<entry>.mask')
+    if not mask_ok:
+        return
+    M = next(iter(leaves))
+    # conditions of continuing / terminating paths that depend on b (after the loop head)
+    def lv_conds(o):
+        out = []
+        for a, v in o.conds:
+            if _contains(a, bl):
+                try:
+                    ev(a, {M: 0, bl: 0})
+                except Unevaluable:
+                    continue      # depends on table contents (collision test), not on the enumeration: don't-care
+                out.append((a, v))
+        return out
+
+    def holds(cs, env):
+        """True / False / None (not evaluable)"""
+        res = True
+        for a, v in cs:
+            try:
+                x = ev(a, env)
+            except Unevaluable:
+                return None
+            if isinstance(v, tuple) and v[0] == 'not':
+                if x in v[1]:
+                    return False
+            elif x != (int(v) if not isinstance(v, tuple) else v):
+                return False
+        return res
+    cont_cs = [lv_conds(o) for o in cont]
+    stop_cs = [lv_conds(o) for o in stop]
+    counted = None
+    if any(not c for c in cont_cs) or any(not c for c in stop_cs):
+        # the loop does not end on a test of the blocker set: accept a counted loop over a Range whose bounds depend on the mask only
+        counted = []
+        for o in through:
+            for e in o.events:
+                if e[0] == 'call' and e[1].endswith('IntoIterator>::into_iter') and e[2] and e[2][0][0] == 'agg' and 'Range' in str(e[2][0][2]):
+                    counted.append(e[2][0])
+        counted = counted[-1] if counted else None
+        if counted is None:
+            ctx.ob(rule, name, what + ': the loop ends exactly when the enumeration returns to the empty set', False,
+                   found={'continue': [[show_cond(c) for c in cs] for cs in cont_cs][:2], 'stop': [[show_cond(c) for c in cs] for cs in stop_cs][:2]},
+                   expected='break iff (b - mask) & mask == 0')
+            return
+    missing_total, dup_total, cases = 0, 0, 0
+    witness = None
+    for sqi, m in masks:
+        env = {M: m}
+        want = 1 << bin(m).count('1')
+        b = 0
+        seen = set()
+        steps = 0
+        if counted is not None:
+            f = dict(counted[4])
+            try:
+                lo, hi = _popcount_ev(f.get('start', f.get('0')), env), _popcount_ev(f.get('end', f.get('1')), env)
+            except (Unevaluable, KeyError, TypeError):
+                ctx.ob(rule, name, what + ': trip count of the fill loop is a function of the mask', False, found=show(counted))
+                return
+            n = max(0, hi - lo) + (1 if 'Inclusive' in str(counted[2]) else 0)
+            for _ in range(min(n, want + 2)):
+                if b in seen:
+                    dup_total += 1
+                seen.add(b)
+                env[bl] = b
+                b = ev(F, env) if True else 0
+        else:
+            while True:
+                seen.add(b)
+                steps += 1
+                env[bl] = b
+                c = [holds(cs, env) for cs in cont_cs]
+                t_ = [holds(cs, env) for cs in stop_cs]
+                if any(x is None for x in c + t_):
+                    ctx.ob(rule, name, what + ': loop conditions are functions of blocker set and mask', False,
+                           found=[[show_cond(x) for x in cs] for cs in cont_cs + stop_cs][:3])
+                    return
+                if any(t_) and not any(c):
+                    break
+                if not any(c):
+                    break
+                b = ev(F, env)
+                if steps > want + 1:
+                    break
+        cases += len(seen)
+        miss = want - len({x for x in seen if x & ~m == 0})
+        if miss and witness is None:
+            allsub = set(subsets(m))
+            lost = sorted(allsub - seen)[:2]
+            witness = {'square': sq_name(1 << sqi), 'mask': hex(m), 'subsets never written': [hex(x) for x in lost], 'written': len(seen), 'of': want}
+        missing_total += miss
+        dup_total += max(0, steps - len(seen)) if counted is None else 0
+    ctx.ob(rule, name, what + ': the body runs once for every subset of the mask',
+           missing_total == 0 and dup_total == 0, found=witness or {'missing': missing_total, 'repeated': dup_total, 'subsets visited': cases, 'masks': len(masks)},
+           expected='2^popcount(mask) distinct blocker sets per square',
+           why='a subset that is never written leaves its slot empty: the slider is reported to attack nothing in that configuration')
+    return cases
+
+
+def r7_fill_loops(ctx):
+    rule = 'C11.R7-fill-loops'
+    facts = ctx.facts
+    masks = []
+    for nm in ('ROOK_MAGICS', 'BISHOP_MAGICS'):
+        v = facts.consts.get(MT + nm)
+        if not (isinstance(v, tuple) and v[0] == 'array'):
+            ctx.anchor_missing(rule, MT + nm)
+            return
+        for i, e in enumerate(v[1]):
+            masks.append((i, dict(e[3])['mask']))
+    n1 = subset_walk(ctx, rule, MT + 'make_table', {MT + 'slider_moves', MT + 'magic_index'}, MT + 'magic_index', MT + 'slider_moves', masks, 'engine table')
+    gm = [(i, relevant_mask(i, d)) for d in (ROOK_DIRS, BISHOP_DIRS) for i in range(64)]
+    n2 = subset_walk(ctx, rule, PM + 'try_make_table', {PM + 'SlidingPiece::targets', PM + 'magic_index'}, PM + 'magic_index', PM + 'SlidingPiece::targets', gm,
+                     'generator collision test')
+    ctx.floor(rule, 'subset-walk steps evaluated', (n1 or 0) + (n2 or 0), 2 * (102400 + 5248))
+
+
 def run(ctx):
     r1_leapers(ctx)
     r2_deltas(ctx)
@@ -375,3 +602,4 @@ def run(ctx):
     r4_acceptance(ctx)
     r5_wiring(ctx)
     r6_constants(ctx)
+    r7_fill_loops(ctx)
